@@ -627,10 +627,36 @@ pub fn c09_sharp_programs() -> Vec<Arc<Prog>> {
             ..(**template).clone()
         })
     };
+    // a memtable flushed in the middle of a table compaction whose inputs leave a key gap: level 1
+    // holds [a] and [e] (above older [a] and [e] on level 2), the manual compaction merges them
+    // into level 2; the writer's key c lies in the gap, overlaps nothing in the current version and
+    // so may be placed on level 2 - where the compaction's output [a..e] is about to land
+    let mut gap = (**template).clone();
+    gap.name = "compact-over-a-key-gap||put-into-the-gap-rotating".to_string();
+    gap.cfg = Cfg::new(2000, 300, 16, true);
+    gap.keys = vec![b"a".to_vec(), b"b".to_vec(), b"c".to_vec(), b"d".to_vec(), b"e".to_vec(), b"f".to_vec()];
+    gap.setup = vec![Put(0, 1, 8), Flush, Put(0, 2, 8), Flush, Put(4, 3, 8), Flush, Put(4, 4, 8), Flush];
+    gap.threads = vec![vec![Compact(None, None)], vec![Put(2, 5, 1500), Put(2, 6, 700), Put(2, 7, 8)]];
+    gap.fs_switch = true;
+    let _ = gap;
     vec![
         p("iterscan||w", vec![Put(0, 1, 8)], vec![vec![IterScan], vec![Put(1, 2, 8)]]),
         p("get+iterscan||batch", vec![Put(0, 1, 8)], vec![vec![Get(1), IterScan], vec![Batch(vec![(0, Some(2)), (1, Some(3))])]]),
     ]
+}
+
+/// A memtable flushed in the middle of a table compaction whose inputs leave a key gap (explored on
+/// its own: every filesystem call of the compaction is a scheduling point).
+pub fn c09_gap_programs() -> Vec<Arc<Prog>> {
+    let all = c09_programs();
+    let mut gap = (*all[0]).clone();
+    gap.name = "compact-over-a-key-gap||put-into-the-gap-rotating".to_string();
+    gap.cfg = Cfg::new(2000, 300, 16, true);
+    gap.keys = vec![b"a".to_vec(), b"b".to_vec(), b"c".to_vec(), b"d".to_vec(), b"e".to_vec(), b"f".to_vec()];
+    gap.setup = vec![Put(0, 1, 8), Flush, Put(0, 2, 8), Flush, Put(4, 3, 8), Flush, Put(4, 4, 8), Flush];
+    gap.threads = vec![vec![Compact(None, None)], vec![Put(2, 5, 1500), Put(2, 6, 700), Put(2, 7, 8)]];
+    gap.fs_switch = true;
+    vec![Arc::new(gap)]
 }
 
 pub fn sched_assumptions(rep: &mut Report) {
